@@ -155,7 +155,8 @@ Inductive outcome :=
 | PanicAssert                            (* assert!(..) / from_data's "does not match shape" *)
 | PanicOther                             (* index out of bounds, "invalid offset", ... *)
 | CapYes | CapNo                         (* has_capacity *)
-| OffSome (o : N) | OffNone.             (* Layout::offset / get *)
+| OffSome (o : N) | OffNone              (* Layout::offset / get *)
+| OffList (l : list N).                  (* get_array: the offsets read *)
 
 Definition lift (r : res outcome) : outcome := match r with Val o => o | Ovf => PanicOverflow end.
 
@@ -295,6 +296,30 @@ Definition weak_index (m : mode) (strides idx : list N) (n : N) : outcome :=
   | Ovf => PanicOverflow
   end.
 
+(* get_array / set_array (static rank only) go through array_offsets:
+     assert!(base[dim] < usize::MAX - M && layout.size(dim) >= base[dim] + M, "array indices invalid");
+     let offset = layout.must_offset(base); let stride = layout.stride(dim);
+     for i in 0..M { offsets[i] = offset + i * stride; }
+   followed by get_unchecked(offsets[i]). *)
+Fixpoint arr_loop (m : mode) (off stride : N) (count : nat) (i : N) : res (list N) :=
+  match count with
+  | O => Val []
+  | S c => t <- mul_m m i stride ;; o <- add_m m off t ;;
+           rest <- arr_loop m off stride c (i + 1) ;; Val (o :: rest)
+  end.
+Definition array_offsets (m : mode) (shape strides base : list N) (dim : nat) (M : nat) : outcome :=
+  match nth_error base dim, nth_error shape dim, nth_error strides dim with
+  | Some b, Some sz, Some st =>
+      if (b <? u64_max - N.of_nat M) && (b + N.of_nat M <=? sz)
+      then match offset_nd m shape strides base with
+           | Ovf => PanicOverflow
+           | Val None => PanicOther
+           | Val (Some off) => lift (l <- arr_loop m off st M 0 ;; Val (OffList l))
+           end
+      else PanicAssert
+  | _, _, _ => PanicOther
+  end.
+
 (* ---- specification side (exact arithmetic).  [dot] and [max_off] come from Tensor.Overlap *)
 Definition Inv (shape strides : list N) (n : N) : Prop :=
   forall idx, Forall2 N.lt idx shape -> dot idx strides < n.
@@ -336,6 +361,7 @@ Inductive query :=
 | QExpand (shape strides : list N) (cap : N) (axis : nat) (new_size : N)
 | QOffset (shape strides idx : list N)
 | QWeak (shape strides idx : list N) (n : N)
+| QArray (shape strides : list N) (n : N) (base : list N) (dim : nat) (M : nat)
 | QSkip.
 Record case := {
   c_mode : mode; c_kind : kind; c_q : query;
@@ -357,6 +383,7 @@ Definition outcome_eqb (a b : outcome) : bool :=
   | PanicOverflow, PanicOverflow | PanicAssert, PanicAssert | PanicOther, PanicOther
   | CapYes, CapYes | CapNo, CapNo | OffNone, OffNone => true
   | OffSome x, OffSome y => x =? y
+  | OffList x, OffList y => list_eqb x y
   | _, _ => false
   end.
 
@@ -386,6 +413,7 @@ Definition model_gen (old : bool) (c : case) : outcome :=
   | QOffset shape strides idx =>
       let '(sh, st) := norm k shape strides in offset_out (offset_k m k sh st idx)
   | QWeak shape strides idx n => weak_index m (snd (norm k shape strides)) idx n
+  | QArray shape strides n base dim M => array_offsets m shape strides base dim M
   | QSkip => c_out c
   end.
 Definition model := model_gen false.
@@ -438,6 +466,9 @@ Definition prop_ok (c : case) : bool :=
       end
   | QWeak _ _ _ n, OffSome o => o <? n
   | QWeak _ _ _ _, _ => true
+  | QArray _ _ n _ _ _, OffList l => forallb (fun o => o <? n) l
+  | QArray _ _ _ _ _ _, PanicOverflow => false
+  | QArray _ _ _ _ _ _, _ => true
   | QSkip, _ => true
   end.
 
